@@ -203,7 +203,8 @@ def check_grammar(rep, wf, cls):
 def check_files(rep, wf, cls):
     w = wf.gi.where
     fors = [c for c, _ in wf.callctx if c.kind == 'for']
-    ok_loop = len(fors) == 1 and fors[0].binder[3] == CALL(S('range'), [A(ARGS, 'numberinstances')])
+    N_ = A(ARGS, 'numberinstances')
+    ok_loop = len(fors) == 1 and fors[0].binder[3] in (CALL(S('range'), [N_]), CALL(S('range'), [C(0), N_]), CALL(S('range'), [C(0), N_, C(1)]))
     rep.check(ok_loop, 'C08.R3', w, 'one instance is created per i in range(numberinstances)', got=[show(c.binder[3]) for c in fors], want='range(args.numberinstances)', construct='%s instance loop' % cls)
     opens = []
     writes = []
